@@ -104,7 +104,7 @@ func (w *World) trace(st *Step) {
 		mem = short([]byte(w.Last.OracleMem))
 	}
 	if os.Getenv("VERIF_TRACE_VERBOSE") != "" {
-		fmt.Fprintf(traceW, "%d %d %s %s %s %s # %s # %s # %s\n", w.seq, st.I, st.Kind, short([]byte(in)), short([]byte(out)), mem, out, st.Err, in)
+		fmt.Fprintf(traceW, "%d %d %s %s %s %s # %s # %s # %s\n", w.seq, st.I, st.Kind, short([]byte(in)), short([]byte(out)), mem, out, st.Err+st.Panic, in)
 		return
 	}
 	fmt.Fprintf(traceW, "%d %d %s %s %s %s\n", w.seq, st.I, st.Kind, short([]byte(in)), short([]byte(out)), mem)
